@@ -343,14 +343,30 @@ def tasks(tier, seed):
             out.append({"harness": "c11.condense", "params": {"specs": [list(x) for x in perm], "ids": len(out) % 3 == 0},
                         "name": f"condense {[(a, b) for a, b in perm]}"})
     if not q:
-        for k in (4,):
-            for sub_ in itertools.combinations(base, k):
-                for perm in itertools.islice(itertools.permutations(sub_), 0, 24, 5):
-                    out.append({"harness": "c11.condense", "params": {"specs": [list(x) for x in perm], "ids": False},
-                                "name": f"condense {[(a, b) for a, b in perm]}"})
+        # every ordered list (with repetition) of 2 or 3 of the 8 contents, every ordered list of 4 distinct ones
+        # out of the first six, and lists of 4 with one repetition
+        def more():
+            for k in (2, 3):
+                yield from itertools.product(CONTENTS, repeat=k)
+            for sub_ in itertools.combinations(base, 4):
+                yield from itertools.permutations(sub_)
+            for sub_ in itertools.combinations(base[:5], 3):
+                for rep in sub_:
+                    yield from itertools.permutations(sub_ + (rep,))
+        for perm in more():
+            key = repr(tuple(perm))
+            if key in seen:
+                continue
+            seen.add(key)
+            out.append({"harness": "c11.condense", "params": {"specs": [list(x) for x in perm], "ids": len(out) % 5 == 0},
+                        "name": f"condense {[(a, b) for a, b in perm]}"})
+        for p_, q_ in itertools.product([list(x) for k in (1, 2) for x in itertools.product(CONTENTS[:5] + [CONTENTS[6]], repeat=k)], repeat=2):
+            out.append({"harness": "c11.compare", "params": {"p": [list(x) for x in p_], "q": [list(x) for x in q_]},
+                        "name": f"compare {p_} vs {q_}"})
     pairs = [([CONTENTS[0], CONTENTS[6]], [CONTENTS[6], CONTENTS[0]]), ([CONTENTS[0], CONTENTS[0]], [CONTENTS[0]]),
              ([CONTENTS[0]], [CONTENTS[1]]), ([CONTENTS[1]], [CONTENTS[0]]), ([CONTENTS[0], CONTENTS[1]], [CONTENTS[1], CONTENTS[0]]),
-             ([CONTENTS[3]], [CONTENTS[3], CONTENTS[3]]), ([CONTENTS[0]], [CONTENTS[6]]), ([CONTENTS[2], CONTENTS[4]], [CONTENTS[4], CONTENTS[2]])]
+             ([CONTENTS[3]], [CONTENTS[3], CONTENTS[3]]), ([CONTENTS[0]], [CONTENTS[6]]), ([CONTENTS[2], CONTENTS[4]], [CONTENTS[4], CONTENTS[2]]),
+             ([CONTENTS[0]], [CONTENTS[0], CONTENTS[1]]), ([CONTENTS[1], CONTENTS[0]], [CONTENTS[0]]), ([CONTENTS[5]], [CONTENTS[5], CONTENTS[3]])]
     for p_, q_ in pairs:
         out.append({"harness": "c11.compare", "params": {"p": [list(x) for x in p_], "q": [list(x) for x in q_]},
                     "name": f"compare {p_} vs {q_}"})
